@@ -38,7 +38,7 @@ ORDER = []
 
 
 def D(name, body, **cls):
-    c = {"arch_pfx": [], "ctx_pfx": [], "with": False, "depth": 1, "clk_ok": False, "clk_fail": False,
+    c = {"arch_pfx": [], "ctx_pfx": [], "with": False, "depth": 1, "clk_ok": False, "clk_fail": False, "ctx_clk": False,
          "needs_ctx": False, "coro": False, "in_call": False, "in_apply": False, "eh": 0, "verdict": "ok"}
     for k in cls:
         assert k in c, k
@@ -266,7 +266,7 @@ class E(cohdl.Entity):
             t <<= self.a
             s.next = t
             self.o <<= s
-""", arch_pfx=[0], ctx_pfx=[0], **CORO)
+""", arch_pfx=[0], ctx_pfx=[0], ctx_clk=True, **CORO)
 D("a_sub", SUB + """
 class E(cohdl.Entity):
     a = Port.input(Bit)
@@ -408,6 +408,7 @@ class E(cohdl.Entity):
             s <<= self.a
 """, verdict="arch", arch_pfx=[2])
 # ---- rejected while a context is converted (PrepareAst) ------------------------------------------------
+# (clk_fail designs use a Clock WITH a frequency: the context they leave behind can then serve std.wait_for(Duration))
 D("r_prep_width", """
 class E(cohdl.Entity):
     a = Port.input(BitVector[4])
@@ -512,7 +513,7 @@ class E(cohdl.Entity):
     clk = Port.input(Bit)
     def architecture(self):
         s = Signal[Bit]()
-        @std.sequential(std.Clock(self.clk))
+        @std.sequential(std.Clock(self.clk, frequency=std.MHz(50)))
         def proc():
             s.push = True
 """, verdict="prep", clk_fail=True)
@@ -773,9 +774,9 @@ def cl(xs):
 
 def design_term(c):
     v = "Ok" if c["verdict"] == "ok" else "(Rej %s)" % STAGE[c["verdict"]]
-    return "(mkD %d %s %s %s %d %s %s %s %s %s %s %d %s)" % (
+    return "(mkD %d %s %s %s %d %s %s %s %s %s %s %s %d %s)" % (
         c["id"], cl(map(str, c["arch_pfx"])), cl(map(str, c["ctx_pfx"])), cb(c["with"]), c["depth"], cb(c["clk_ok"]),
-        cb(c["clk_fail"]), cb(c["needs_ctx"]), cb(c["coro"]), cb(c["in_call"]), cb(c["in_apply"]), c["eh"], v)
+        cb(c["clk_fail"]), cb(c["ctx_clk"]), cb(c["needs_ctx"]), cb(c["coro"]), cb(c["in_call"]), cb(c["in_apply"]), c["eh"], v)
 
 
 TOK = re.compile(r"^(?:p(\d+)|(\d+))$")
@@ -796,8 +797,9 @@ def gen_names(names):
     """the generated names `<prefix>_s` among the declared identifiers, as Coq pstr terms"""
     out = []
     for n in names:
-        if n.lower().endswith("_s"):
-            p = parse_pstr(n[:-2])
+        m = re.match(r"^(.*)_s\d*$", n.lower())      # `_s<k>`: the back end renamed a second signal of that name
+        if m:
+            p = parse_pstr(m.group(1))
             if p is not None:
                 out.append(p)
     return out
@@ -844,6 +846,7 @@ class Runner:
         self.pool = {k: {"source": v["source"], "entity": v["entity"]} for k, v in POOL.items()}
         self.compiles = 0
         self.base = None
+        self.tree = None
 
     def run(self, histories, text=False, hashseed=None):
         """histories: list of lists of design names -> list of step lists (None if the child died)"""
@@ -860,6 +863,9 @@ class Runner:
             outs = list(ex.map(lambda pl: common.run_worker("c11_worker.py", pl, timeout=6000, env_extra=extra), payloads))
         res = [None] * len(histories)
         for o in outs:
+            self.tree = self.tree or o["tree"]
+            if o["tree"] != self.tree:
+                raise RuntimeError("the tree under test (%s) changed while the check was running; run it again" % common.REPO)
             if hashseed is not None:
                 assert o["hashseed"] == str(hashseed), o["hashseed"]
             self.base = self.base or o["base"]
@@ -893,28 +899,57 @@ def mechanism(prev_g, st, fresh, base):
     return "unknown"
 
 
-def minimise(runner, fresh, history, victim_pos):
-    """1-minimal history (delta debugging by single removals, all candidates of a round in one worker call)
-    whose last compilation (the victim) still differs from its fresh outcome"""
-    victim = history[victim_pos]
-    cur = list(history[:victim_pos])
-    want = outcome_of(fresh[victim])
+def minimise_all(runner, fresh_of, items):
+    """items: [(history, victim position)] -> for each a minimal history whose last compilation (the victim) still
+    differs from its fresh outcome.  Delta debugging, all candidates of a round in ONE worker call:
+    round 1 = every single predecessor, round 2 = every ordered pair of predecessors, then greedy single removals
+    (1-minimal)."""
+    victims = [h[pos] for h, pos in items]
+    cur = [list(h[:pos]) for h, pos in items]
+    want = [outcome_of(fresh_of(v)) for v in victims]
+    done = [False] * len(items)
 
-    def fails(results):
-        return results is not None and len(results) > 0 and outcome_of(results[-1]) != want
+    def fails(i, steps):
+        return steps is not None and len(steps) > 0 and outcome_of(steps[-1]) != want[i]
 
-    # first try short prefixes ending... then single removals until a fixpoint
-    changed = True
-    while changed and cur:
-        changed = False
-        cands = [cur[:i] + cur[i + 1:] for i in range(len(cur))]
-        res = runner.run([c + [victim] for c in cands])
-        for c, r in zip(cands, res):
-            if fails(r):
-                cur = c
-                changed = True
-                break
-    return cur + [victim]
+    def distinct(seqs):
+        seen, out = set(), []
+        for q in seqs:
+            if tuple(q) not in seen:
+                seen.add(tuple(q))
+                out.append(q)
+        return out
+
+    for size in (1, 2):
+        batch, owner = [], []
+        for i in range(len(items)):
+            if done[i] or len(cur[i]) <= size:
+                continue
+            for q in distinct([list(c) for c in itertools.combinations(cur[i], size)]):
+                batch.append(q + [victims[i]])
+                owner.append((i, q))
+        for (i, q), steps in zip(owner, runner.run(batch)):
+            if not done[i] and fails(i, steps):
+                cur[i], done[i] = q, True
+    while True:
+        batch, owner = [], []
+        for i in range(len(items)):
+            if done[i]:
+                continue
+            for j in range(len(cur[i])):
+                batch.append(cur[i][:j] + cur[i][j + 1:] + [victims[i]])
+                owner.append((i, j))
+        if not batch:
+            break
+        progressed = set()
+        for (i, j), steps in zip(owner, runner.run(batch)):
+            if i not in progressed and fails(i, steps):
+                cur[i] = cur[i][:j] + cur[i][j + 1:]
+                progressed.add(i)
+        for i in range(len(items)):
+            if not done[i] and i not in progressed:
+                done[i] = True
+    return [c + [v] for c, v in zip(cur, victims)]
 
 
 # ----------------------------------------------------------------------------
@@ -949,6 +984,19 @@ CORPUS = [
 ]
 
 
+def class_representatives():
+    """one pool design per distinct value of the model's design class (identity excluded)"""
+    seen, out = set(), []
+    for n in ORDER:
+        c = dict(POOL[n]["cls"])
+        c.pop("id")
+        k = json.dumps(c, sort_keys=True)
+        if k not in seen:
+            seen.add(k)
+            out.append(n)
+    return out
+
+
 def make_histories(ck):
     rng = ck.rng
     hs = [list(h) for h in CORPUS]
@@ -963,13 +1011,15 @@ def make_histories(ck):
         ck.cov["exhaustive"] = False
     else:
         hs += [list(t) for t in itertools.product(ORDER, repeat=2)]
-        hs += [list(t) for t in itertools.product(ORDER, repeat=3)]
+        reps = class_representatives()
+        hs += [list(t) for t in itertools.product(reps, repeat=3)]
         for i in range(300):
             n = rng.randint(4, 12)
             src = harmless if i % 5 == 4 else ORDER
             hs.append([rng.choice(src) for _ in range(n)])
         ck.cov["exhaustive"] = True
-        ck.cov["exhaustive_space"] = "all histories of length <= 3 over the %d pool designs" % len(ORDER)
+        ck.cov["exhaustive_space"] = ("all histories of length <= 2 over the %d pool designs and all histories of length 3 "
+                                      "over one representative per distinct design class (%d)" % (len(ORDER), len(reps)))
     # dedupe, keep order
     seen, out = set(), []
     for h in hs:
@@ -1129,10 +1179,11 @@ def run(ck: common.Check, replay=None):
 
     # violations: one per (poisoning class, victim class, mechanism), shown on a 1-minimal history
     reported = {}
-    for gk, (_, hi, pos) in sorted(groups.items(), key=lambda kv: (kv[1][0], kv[0])):
+    glist = sorted(groups.items(), key=lambda kv: (kv[1][0], kv[0]))[:40]
+    minis = minimise_all(runner, lambda n: fresh[n], [(hists[hi], pos) for _, (_, hi, pos) in glist])
+    finals = runner.run(minis, text=True)
+    for (gk, (_, hi, pos)), mini, rs in zip(glist, minis, finals):
         h = hists[hi]
-        mini = minimise(runner, fresh, h, pos)
-        rs = runner.run([mini], text=True)[0]
         if rs is None or outcome_of(rs[-1]) == outcome_of(fresh[mini[-1]]):
             mini, rs = h[:pos + 1], runner.run([h[:pos + 1]], text=True)[0]
         prev_g = rs[-2]["g"] if len(rs) >= 2 else None
@@ -1148,7 +1199,7 @@ def run(ck: common.Check, replay=None):
         reported[kk] = True
         what = ("%s: after %s the design %s is %s (fresh interpreter: %s)" % (
             mech, " -> ".join(mini[:-1]) or "nothing", mini[-1],
-            ("accepted, sha " + rs[-1]["sha"][:12] + ", names " + ",".join(n for n in rs[-1]["names"] if n.endswith("_s")))
+            ("accepted, sha " + rs[-1]["sha"][:12] + ", names " + ",".join(n for n in rs[-1]["names"] if re.search(r"_s\d*$", n)))
             if rs[-1]["ok"] else "rejected: " + rs[-1]["err"][:90],
             ("accepted, sha " + f["sha"][:12]) if f["ok"] else "rejected: " + f["err"][:90]))
         ck.violation(key, what, {
@@ -1186,12 +1237,12 @@ def run(ck: common.Check, replay=None):
 
     # ---- mixed histories with upstream reference designs (specification only) ----------------------------------
     ups = upstream_modules()
-    n_mixed = 12 if ck.tier == "quick" else 150
+    n_mixed = 6 if ck.tier == "quick" else 150
     rejected = [n for n in ORDER if not fresh[n]["ok"]]
     mixed = []
     if ups:
         for i in range(n_mixed):
-            k = ck.rng.randint(3, 6)
+            k = ck.rng.randint(3, 5)
             h = []
             for j in range(k):
                 h.append("up:" + ck.rng.choice(ups) if j % 2 == 0 else ck.rng.choice(rejected if i % 3 else ORDER))
@@ -1199,7 +1250,7 @@ def run(ck: common.Check, replay=None):
         used_up = sorted({n for h in mixed for n in h if n.startswith("up:")})
         up_fresh = {n: (s[0] if s else None) for n, s in zip(used_up, runner.run([[n] for n in used_up]))}
         mres = runner.run(mixed)
-        seen_up = {}
+        seen_up, todo = {}, []
         for h, steps in zip(mixed, mres):
             ok = steps is not None
             for pos, st in enumerate(steps or []):
@@ -1216,19 +1267,25 @@ def run(ck: common.Check, replay=None):
                     kk = json.dumps(key, sort_keys=True)
                     if kk not in seen_up:
                         seen_up[kk] = True
-                        mini = minimise(runner, {st["name"]: f}, h, pos)
-                        ck.violation(key, "%s: upstream design %s compiled after %s is %s" % (
-                            mech, st["name"][3:], " -> ".join(mini[:-1]),
-                            "rejected: " + st["err"][:90] if not st["ok"] else "different from the fresh output"),
-                            {"history": mini, "found_in": h, "sources": {n: runner.pool[n] for n in set(mini) if n in runner.pool}})
+                        todo.append((key, h, pos, st))
             ck.obligation(ok)
             ck.nontrivial(h)
+        if todo:
+            fr = dict(fresh)
+            fr.update(up_fresh)
+            minis = minimise_all(runner, lambda n: fr[n], [(h, pos) for _, h, pos, _ in todo])
+            for (key, h, pos, st), mini in zip(todo, minis):
+                key = dict(key, after=label(mini[0]) if len(mini) > 1 else "nothing")
+                ck.violation(key, "%s: upstream design %s compiled after %s is %s" % (
+                    key["mechanism"], st["name"][3:], " -> ".join(mini[:-1]),
+                    "rejected: " + st["err"][:90] if not st["ok"] else "different from the fresh output"),
+                    {"history": mini, "found_in": h, "sources": {n: runner.pool[n] for n in set(mini) if n in runner.pool}})
         ck.cov["mixed_histories_with_upstream_designs"] = len(mixed)
 
     phase("mixed_upstream")
     # ---- (c) hash seeds ------------------------------------------------------------------------------------
     acc = [n for n in ORDER if fresh[n]["ok"]]
-    n_up = 24 if ck.tier == "quick" else len(ups)
+    n_up = 8 if ck.tier == "quick" else len(ups)
     up_sel = ["up:" + m for m in (ups if n_up >= len(ups) else ck.rng.sample(ups, n_up))]
     seeds = [0, 1, 2 + (ck.seed * 7919 + 12345) % 4294967290]
     per_seed = {}
